@@ -4,6 +4,12 @@ import NitroVerif.Gen.Guards
   file.go rawFileWriter/rawFileReader, as pure functions on byte lists.
   `bufio`, `os` and `io.ReadFull` are modelled by "the file is a byte list; a read of n bytes
   either returns the next n bytes or fails because fewer are left".
+  Abstractions: lengths are unbounded `Nat`, reduced modulo 256^w exactly where the Go code converts
+  (`uint32(l)`, `uint16(klen)`); the byte order and width of every length field come from the
+  generated facts (`Gen.encodeBigEndian`, `Gen.encodeLenWidth`, `Gen.decodeBigEndian`,
+  `Gen.decodeLenWidthV0/V1`, `Gen.kvLittleEndian`, `Gen.kvLenWidth`).  An item of 2^32 bytes or
+  more cannot exist in Go (`Item.dataLen` is a `uint32`); the model would write all its bytes — such
+  items are outside the hypotheses of every theorem.
 -/
 namespace NitroVerif.Codec
 open NitroVerif
@@ -27,8 +33,19 @@ def leVal : Bytes → Nat
   | [] => 0
   | b :: r => b.toNat + 256 * leVal r
 
-/-- EncodeItem: [len on `encodeLenWidth` bytes, big endian][data] -/
-def encodeItem (data : Bytes) : Bytes := beBytes Gen.encodeLenWidth data.length ++ data
+/-- a length field of `w` bytes in the byte order the Go code uses at that place
+    (`big` is one of the generated facts `Gen.encodeBigEndian` / `Gen.decodeBigEndian` /
+    `!Gen.kvLittleEndian`) -/
+def lenEnc (big : Bool) (w n : Nat) : Bytes := if big then beBytes w n else leBytes w n
+
+/-- value of a length field read in that byte order -/
+def lenDec (big : Bool) (bs : Bytes) : Nat := if big then beVal bs else leVal bs
+
+/-- the length field EncodeItem writes (`binary.BigEndian.PutUint32(buf[0:4], uint32(itm.dataLen))`) -/
+def encodeLen (n : Nat) : Bytes := lenEnc Gen.encodeBigEndian Gen.encodeLenWidth n
+
+/-- EncodeItem: [len on `encodeLenWidth` bytes][data] -/
+def encodeItem (data : Bytes) : Bytes := encodeLen data.length ++ data
 
 /-- per-item checksum of the writer, generic in the hash (crc32 in the driver) -/
 def itemSum (h : Bytes → Nat) (lenBytes data : Bytes) : Nat := h lenBytes ^^^ h data
@@ -39,7 +56,7 @@ def writeFile (items : List Bytes) : Bytes :=
 
 /-- writer checksum as read by StoreToDisk (before Close appends the terminator) -/
 def writerChecksum (h : Bytes → Nat) (items : List Bytes) : Nat :=
-  items.foldl (fun acc d => acc ^^^ itemSum h (beBytes Gen.encodeLenWidth d.length) d) 0
+  items.foldl (fun acc d => acc ^^^ itemSum h (encodeLen d.length) d) 0
 
 inductive Decoded where
   | short                                  -- io.ReadFull failed (EOF / unexpected EOF)
@@ -54,7 +71,7 @@ def decodeItem (ver : Nat) (bs : Bytes) : Decoded :=
   let w := lenWidth ver
   if bs.length < w then .short else
   let lb := bs.take w
-  let l := beVal lb
+  let l := lenDec Gen.decodeBigEndian lb
   let rest := bs.drop w
   if Gen.decodeHasItem l then
     if rest.length < l then .short else .item lb (rest.take l) (rest.drop l)
@@ -78,20 +95,25 @@ def readLoop (h : Bytes → Nat) (ver : Nat) : Nat → Bytes → List Bytes → 
 def readFile (h : Bytes → Nat) (ver : Nat) (bs : Bytes) : ReadResult :=
   readLoop h ver (bs.length + 1) bs [] 0
 
-/-- v0 writer (older format): 2-byte length -/
-def encodeItemV0 (data : Bytes) : Bytes := beBytes Gen.decodeLenWidthV0 data.length ++ data
+/-- v0 writer (older format; model-side only, the code has no v0 writer any more): the length
+    field exactly as the v0 branch of DecodeItem reads it -/
+def encodeItemV0 (data : Bytes) : Bytes :=
+  lenEnc Gen.decodeBigEndian Gen.decodeLenWidthV0 data.length ++ data
 def writeFileV0 (items : List Bytes) : Bytes := items.flatMap encodeItemV0 ++ encodeItemV0 []
 
 /-- KVToBytes -/
-def kvToBytes (k v : Bytes) : Bytes := leBytes Gen.kvLenWidth k.length ++ k ++ v
+def kvToBytes (k v : Bytes) : Bytes := lenEnc (!Gen.kvLittleEndian) Gen.kvLenWidth k.length ++ k ++ v
+
+/-- the key length KVFromBytes / CompareKV read from the first `kvLenWidth` bytes -/
+def kvKeyLen (bs : Bytes) : Nat := lenDec (!Gen.kvLittleEndian) (bs.take Gen.kvLenWidth)
 
 /-- KVFromBytes (the Go code slices without checks; the model is guarded by `kvWellFormed`) -/
 def kvFromBytes (bs : Bytes) : Bytes × Bytes :=
-  let klen := leVal (bs.take Gen.kvLenWidth)
+  let klen := kvKeyLen bs
   ((bs.drop Gen.kvLenWidth).take klen, bs.drop (Gen.kvLenWidth + klen))
 
 def kvWellFormed (bs : Bytes) : Bool :=
-  decide (Gen.kvLenWidth ≤ bs.length) && decide (Gen.kvLenWidth + leVal (bs.take Gen.kvLenWidth) ≤ bs.length)
+  decide (Gen.kvLenWidth ≤ bs.length) && decide (Gen.kvLenWidth + kvKeyLen bs ≤ bs.length)
 
 /-- bytes.Compare -/
 def cmpBytes : Bytes → Bytes → Int
